@@ -31,6 +31,9 @@ abbrev FnTable := List SFn
 
 def FnTable.find (F : FnTable) (name : Str) : Option SFn := F.reverse.find? (fun g => g.name == name)
 
+/-- the two postfix operators -/
+def isIncDec (op : Str) : Bool := op == ['+', '+'] || op == ['-', '-']
+
 mutual
   /-- statement forms covered: assignment of a value-producing expression, if / else, while, over
       value-producing conditions -/
@@ -54,8 +57,11 @@ mutual
     | .ret (.call _ args) => pureEs args
     | .ret e => pureE e
     | .expr e => stmtE e
+  /-- `x++;` is parsed as TWO statements - the operand (any value-producing expression), which leaves its
+      value on the stack, and the postfix operator, which takes it off again - so the pair is one unit -/
   def pureSs : List Stmt → Bool
     | [] => true
+    | .expr e :: .expr (.postfix _ op) :: ss => isIncDec op && pureE e && pureSs ss
     | s :: ss => pureS s && pureSs ss
 end
 
@@ -74,6 +80,15 @@ def failE (e : Err) (env : Env) (o : Str) : Outcome := if e = undefErr then .div
 
 theorem failE_ne {e : Err} (h : e ≠ undefErr) (env : Env) (o : Str) : failE e env o = .failed e env o := by
   simp [failE, h]
+
+/-- what `++` / `--` do to the variable `name`: an integer or float is replaced by a fresh value one more
+    or less; anything else is an error -/
+def incDecEnv (obj : HostVal) (env : Env) (name : Str) (inc : Bool) : Except Err Env :=
+  match lookup obj env name with
+  | .error e => .error e
+  | .ok (.int i) => .ok (env.set name (.int (if inc then i + 1 else i - 1)))
+  | .ok (.float x) => .ok (env.set name (.float (if inc then x + 1 else x - 1)))
+  | .ok _ => .error (.error (if inc then "incType" else "decType"))
 
 /-- how a call ends: with a value (possibly the void value, which is not pushed), with an error, or not
     at all within the budget -/
@@ -277,12 +292,74 @@ mutual
   def execSs (M : Machine) (F : FnTable) (obj : HostVal) (depth : Nat) : Nat → List Stmt → Env → Str → Outcome
     | 0, _, _, _ => .diverged
     | _ + 1, [], env, out => .normal env out
+    | f + 1, .expr e :: .expr (.postfix name op) :: ss, env, out =>
+        -- `e op;` with op one of ++ / --: the operand is evaluated (its value is dropped), then the variable
+        -- the operator names - the text before it - is looked up and replaced
+        match evalE M obj env e out with
+        | (.error x, o) => failE x env o
+        | (.ok _, o) =>
+          match incDecEnv obj env name (op == ['+', '+']) with
+          | .error x => .failed x env o
+          | .ok env' => execSs M F obj depth f ss env' o
     | f + 1, s :: ss, env, out =>
         match execS M F obj depth f s env out with
         | .normal env' o' => execSs M F obj depth f ss env' o'
         | other => other
   termination_by structural f => f
 end
+
+
+/-- the list starts with an operand-and-postfix-operator pair -/
+def IsPair (s : Stmt) (ss : List Stmt) : Prop := ∃ e n op rest, s = .expr e ∧ ss = .expr (.postfix n op) :: rest
+
+theorem pureSs_other (s : Stmt) (ss : List Stmt) (h : ¬ IsPair s ss) : pureSs (s :: ss) = (pureS s && pureSs ss) := by
+  cases s with
+  | ret e => rfl
+  | expr e =>
+    cases ss with
+    | nil => rfl
+    | cons s2 rest =>
+      cases s2 with
+      | ret e2 => rfl
+      | expr e2 => cases e2 <;> first | rfl | exact absurd ⟨_, _, _, _, rfl, rfl⟩ h
+
+theorem execSs_other (M : Machine) (F : FnTable) (obj : HostVal) (depth f : Nat) (s : Stmt) (ss : List Stmt) (env : Env) (out : Str)
+    (h : ¬ IsPair s ss) :
+    execSs M F obj depth (f + 1) (s :: ss) env out =
+      (match execS M F obj depth f s env out with
+       | .normal env' o' => execSs M F obj depth f ss env' o'
+       | other => other) := by
+  cases s with
+  | ret e => simp only [execSs]
+  | expr e =>
+    cases ss with
+    | nil => simp only [execSs]
+    | cons s2 rest =>
+      cases s2 with
+      | ret e2 => simp only [execSs]
+      | expr e2 => cases e2 <;> first | (simp only [execSs]; done) | exact absurd ⟨_, _, _, _, rfl, rfl⟩ h
+
+/-- what OpInc / OpDec do: the looked-up value on the stack is dropped, the variable named by the constant
+    is replaced -/
+theorem step_incdec (M : Machine) (obj : HostVal) (len : Nat) (rb : Bytes → RunSt → Res × RunSt) (arg next : Nat)
+    (inc : Bool) (top : Value) (stack : List Value) (st : RunSt) (c : Value) (hc : M.consts[arg]? = some c) :
+    step M obj len rb (if inc then Op.inc else Op.dec).toNat arg next (top :: stack) st =
+      (match incDecEnv obj st.env c.inspect inc with
+       | .error e => .halt (.error e) st
+       | .ok env' => .cont next stack { st with env := env' }) := by
+  cases inc with
+  | true =>
+    have : Op.ofNat? Op.inc.toNat = some .inc := rfl
+    simp only [↓reduceIte, step, this, isBinary, hc, incDecEnv]
+    cases lookup obj st.env c.inspect with
+    | error e => rfl
+    | ok v => cases v <;> simp [err]
+  | false =>
+    have : Op.ofNat? Op.dec.toNat = some .dec := rfl
+    simp only [Bool.false_eq_true, ↓reduceIte, step, this, isBinary, hc, incDecEnv]
+    cases lookup obj st.env c.inspect with
+    | error e => rfl
+    | ok v => cases v <;> simp [err]
 
 /-- where the VM stands after the code of a statement, according to its outcome -/
 def afterS (M : Machine) (obj : HostVal) (code : Bytes) (fuel ip : Nat) (stack : List Value)
@@ -905,16 +982,90 @@ theorem step_Ss (ctx : Ctx M code) (f : Nat) (ihAll : ∀ code', Ctx M code' →
     simp only [compileStmts, pure, Except.pure] at h; cases h
     exact ⟨0, 0, 0, fun fuel => by simp [afterS, execSs, Stmt.sizes]⟩
   | cons s rest =>
+    by_cases hpair : IsPair s rest
+    · -- `e op;` : the operand, then OpInc / OpDec
+      obtain ⟨e, name, op, rest', rfl, rfl⟩ := hpair
+      simp only [pureSs, Bool.and_eq_true] at hpure
+      obtain ⟨⟨hop, hpe⟩, hprest⟩ := hpure
+      simp only [compileStmts, compileStmt, bind_ok_eq, pure, Except.pure] at h
+      obtain ⟨⟨c, st1⟩, h1, ⟨cs, st2⟩, ⟨⟨ci, sti⟩, hi, ⟨cr, str⟩, hr, hcs⟩, h3⟩ := h
+      cases h3; cases hcs
+      have s1 := compileExpr_size e base cst _ h1
+      have rr := compileStmts_R rest' _ _ _ hr
+      simp only at s1 rr
+      -- the postfix instruction
+      have hinstr : ∃ inc : Bool, (op == ['+', '+']) = inc ∧ ci = [(withConst st1 (if inc then Op.inc else Op.dec) (.str name)).1] ∧
+          sti = (withConst st1 (if inc then Op.inc else Op.dec) (.str name)).2 := by
+        simp only [compileExpr] at hi
+        by_cases hpp : (op == ['+', '+']) = true
+        · simp only [hpp, ↓reduceIte, pure, Except.pure] at hi; cases hi
+          exact ⟨true, hpp, rfl, rfl⟩
+        · simp only [hpp, Bool.false_eq_true, ↓reduceIte] at hi
+          by_cases hmm : (op == ['-', '-']) = true
+          · simp only [hmm, ↓reduceIte, pure, Except.pure] at hi; cases hi
+            exact ⟨false, by simpa using hpp, rfl, rfl⟩
+          · simp [hmm] at hi
+      obtain ⟨inc, hinc, rfl, rfl⟩ := hinstr
+      have hce : CodeAt code base c := hc.left
+      have hci : CodeAt code (base + e.size) ((withConst st1 (if inc then Op.inc else Op.dec) (.str name)).1 :: cr) := by
+        have := hc.right; rwa [s1] at this
+      have hcr : CodeAt code (base + e.size + 3) cr := by
+        have := hci.tail; simpa [Instr.size, withConst_op, Op.length] using (by cases inc <;> simpa [Instr.size, withConst_op, Op.length] using this)
+      have pool1 : ∃ ex, M.consts = (withConst st1 (if inc then Op.inc else Op.dec) (.str name)).2.consts ++ ex := pool_trans hp rr.ext
+      obtain ⟨cn, hget, _, hinsp⟩ := withConst_pool st1 (if inc then Op.inc else Op.dec) (.str name) M.consts pool1
+      have hname : cn.inspect = name := by rw [hinsp]; simp [Value.inspect]
+      have hlt : (withConst st1 (if inc then Op.inc else Op.dec) (.str name)).1.arg < 65536 := by
+        have := (List.getElem?_eq_some_iff.mp hget).1
+        have := ctx.pool; omega
+      have hiop : (withConst st1 (if inc then Op.inc else Op.dec) (.str name)).1.op = (if inc then Op.inc else Op.dec) := rfl
+      have hlen3 : (if inc then Op.inc else Op.dec).length = 3 := by cases inc <;> rfl
+      have harg : storedArg (withConst st1 (if inc then Op.inc else Op.dec) (.str name)).1 = (withConst st1 (if inc then Op.inc else Op.dec) (.str name)).1.arg := by
+        simp [storedArg, hiop, hlen3, Nat.mod_eq_of_lt hlt]
+      have pool0 : ∃ ex, M.consts = st1.consts ++ ex := pool_trans pool1 (addConstant_ext st1 (.str name))
+      simp only [execSs, hinc] at hnd ⊢
+      have hU1 : (evalE M obj env e out).1 ≠ .error undefErr := by
+        intro hm; obtain ⟨ox, hx⟩ := fst_err hm; exact hnd (by simp [hx, failE])
+      obtain ⟨n1, k1, ih1⟩ := expr_ok e base cst _ hpe h1 M obj code ctx hce pool0 stack env out polls depth hU1
+      cases hev : evalE M obj env e out with
+      | mk res o1 =>
+        cases res with
+        | error x => exact ⟨n1, k1, 0, fun fuel => by rw [ih1 fuel, hev]; simp [after, afterS, failE_ne (fun he => hU1 (by rw [hev, he]) : x ≠ undefErr)]⟩
+        | ok v =>
+          simp only [hev] at hnd
+          have hrun1 : ∀ fuel, loop M obj code (fuel + n1) base stack ⟨env, out, polls, depth⟩ =
+              loop M obj code fuel (base + e.size) (v :: stack) ⟨env, o1, polls + k1, depth⟩ := by
+            intro fuel; rw [ih1 fuel, hev]; rfl
+          cases hid : incDecEnv obj env name inc with
+          | error x =>
+            refine ⟨1 + n1, k1 + 1, 0, ?_⟩
+            apply finish_instr hrun1 hci ctx.nd (Or.inl harg) _ harg.symm
+            intro fuel
+            rw [hiop, step_incdec M obj _ _ _ _ inc v stack _ cn hget, hname]
+            simp [hid, afterS, Nat.add_assoc]
+          | ok env' =>
+            simp only [hid] at hnd
+            have hrun2 : ∀ fuel, loop M obj code (fuel + (1 + n1)) base stack ⟨env, out, polls, depth⟩ =
+                loop M obj code (fuel + 0) (base + e.size + 3) stack ⟨env', o1, polls + k1 + 1, depth⟩ := by
+              apply finish_instr hrun1 hci ctx.nd (Or.inl harg) _ harg.symm
+              intro fuel
+              rw [hiop, step_incdec M obj _ _ _ _ inc v stack _ cn hget, hname]
+              simp [hid, Instr.size, hiop, hlen3]
+            obtain ⟨n2, k2, e2, ih2⟩ := ih.Ss rest' _ _ _ hprest hr hcr hp stack env' o1 (polls + k1 + 1) depth hnd
+            have h3 := chainE (f := fun x => loop M obj code x (base + e.size + 3) stack ⟨env', o1, polls + k1 + 1, depth⟩) hrun2 n2 ih2
+            refine ⟨n2 + (1 + n1), k1 + 1 + k2, 0 + e2, fun fuel => ?_⟩
+            rw [h3 fuel]
+            simp [Stmt.sizes, Stmt.size, Expr.size, Nat.add_assoc]
+    rw [pureSs_other s rest hpair] at hpure
+    rw [execSs_other M F obj depth f s rest env out hpair] at hnd ⊢
     simp only [compileStmts, bind_ok_eq, pure, Except.pure] at h
     obtain ⟨⟨c, st1⟩, h1, ⟨cs, st2⟩, h2, h3⟩ := h
     cases h3
-    simp only [pureSs, Bool.and_eq_true] at hpure
+    simp only [Bool.and_eq_true] at hpure
     have s1 := compileStmt_size s base cst _ h1
     have r2 := compileStmts_R rest _ _ _ h2
     simp only at s1 r2
     have hcs : CodeAt code base c := hc.left
     have hcr : CodeAt code (base + s.size) cs := by have := hc.right; rwa [s1] at this
-    simp only [execSs] at hnd ⊢
     cases hs : execS M F obj depth f s env out with
     | diverged => simp [hs] at hnd
     | returned v env' o' =>
@@ -2088,9 +2239,16 @@ mutual
     | .expr e, h => by simp only [pureS] at h; simp [normStmt, normExpr_stmtE e h]
   theorem normStmts_pure : ∀ (ss : List Stmt), pureSs ss = true → normStmts ss = ss
     | [], _ => rfl
-    | s :: ss, h => by
+    | .expr e :: .expr (.postfix n op) :: ss, h => by
       simp only [pureSs, Bool.and_eq_true] at h
-      simp [normStmts, normStmt_pure s h.1, normStmts_pure ss h.2]
+      simp [normStmts, normStmt, normExpr, normExpr_pure e h.1.2, normStmts_pure ss h.2]
+    | s :: ss, h => by
+      by_cases hpair : IsPair s ss
+      · obtain ⟨e, n, op, rest, rfl, rfl⟩ := hpair
+        simp only [pureSs, Bool.and_eq_true] at h
+        simp [normStmts, normStmt, normExpr, normExpr_pure e h.1.2, normStmts_pure rest h.2]
+      · rw [pureSs_other s ss hpair, Bool.and_eq_true] at h
+        simp [normStmts, normStmt_pure s h.1, normStmts_pure ss h.2]
 end
 
 /-- the result of a run, according to how the script's top-level block ends: running off the end yields
